@@ -7,6 +7,11 @@ COMMON_TB = [
     "Rust harness (generator, printer of Coq terms), rustc/LLVM, the Python driver tools/checklib.py",
 ]
 
+REALS_AXIOMS = [
+    "ClassicalDedekindReals.sig_not_dec", "ClassicalDedekindReals.sig_forall_dec",
+    "FunctionalExtensionality.functional_extensionality_dep", "Classical_Prop.classic",
+]
+
 PROPS = {
     "C14": dict(
         prop_file="Properties/C14.v",
@@ -30,6 +35,296 @@ PROPS = {
         assumptions=[
             "clear_until(h) is only issued with h <= current height (the property's stated precondition)",
             "memory safety of the MaybeUninit storage is not derived from the model beyond slot states and the drop log",
+        ],
+    ),
+    "C16": dict(
+        prop_file="Properties/C16.v",
+        check_module="C16Check",
+        theorems={t: [] for t in [
+            "C16_children_agree",
+            "C16_abstraction_injective",
+            "C16_step_refines",
+            "C16_run_refines",
+            "C16_swap_cards_refines",
+            "C16_get_card_get_card_mut",
+            "C16_walk_complete_unique",
+            "C16_visit_children_unfold",
+            "C16_replace_back",
+            "C16_remove_insert",
+            "C16_remove_insert_top_level",
+            "C16_remove_insert_fixed_refuted",
+            "C16_swap_involutive",
+            "C16_swap_ancestor_fails_unchanged",
+            "C16_swap_fail_unchanged",
+            "C16_failed_edit_unchanged",
+            "C16_replace_local",
+            "C16_swap_local",
+            "C16_insert_local",
+            "C16_remove_local",
+            "C16_swap_same_legacy_refuted",
+            "C16_call_insert_legacy_refuted",
+            "C16_get_depth_legacy_refuted",
+        ]},
+        n_quick=150, n_thorough=1500,
+        gates=["kinds.all43", "op.get", "op.get_mut", "op.insert", "op.remove", "op.replace", "op.swap", "op.walk",
+               "op.kids", "op.replace_child", "err.CardNotFound", "err.FunctionNotFound", "err.InvalidIndex",
+               "err.ChildErr", "swap.InvalidSwap", "swap.FetchError", "edge.swap_same", "edge.call_insert_oor",
+               "edge.get_nested_miss", "random"],
+        rule="bounded-exhaustive: each of the 43 card kinds (list kinds with 0-3 children) x every child index "
+             "0..arity+1 x {kids, get, get_mut, replace+replace back, insert, remove, swap twice with a card of the "
+             "same and of another function, swap with the own ancestor in both orders, replace_child, walk, swap "
+             "with itself}, once as a top-level card and once nested in a host card; malformed indices (empty, "
+             "function out of range, card out of range); plus n random modules (depth <= 4, thorough <= 6) with "
+             "random histories of 8-16 calls on valid, perturbed and invalid indices. After every call the result "
+             "(incl. error variant and depth) and the whole module are compared with the kind-by-kind model and "
+             "with the rose-tree specification. Calls of the three repaired classes (swap(i,i), insert past the end of a call, get_card "
+             "below a miss) are issued inside the histories and also as cases of their own. non-trivial = history uses >= 3 operation kinds or contains a failing call; distinct = "
+             "distinct case term",
+        trusted_base=COMMON_TB + [
+            "modelled, not verified: card.rs num_children/iter_children/get_child/get_child_mut/remove_child/"
+            "insert_child/replace_child and module.rs CardIndex::cmp, get_card/get_card_mut/remove_card/"
+            "replace_card/insert_card/swap_cards/walk_cards(_mut)/visit_children; the abstraction to_rose "
+            "(which children a card has, in which order) is part of the specification",
+            "the harness printer from cao_lang::compiler::{Card, Module} to CardAst terms (harness/src/c16.rs)",
+            "wasm/src/lib.rs forwards to the same five functions; read, not modelled, not built"],
+        assumptions=[
+            "CardId (random, skipped by serde) is not modelled or compared",
+            "indices are u32 in the implementation and nat in the model; the harness only issues small indices",
+            "after a caught panic the module is not compared further (no panic occurs; C16_step_refines shows "
+            "the unwraps and slice operations of the modelled paths cannot fail)",
+        ],
+    ),
+    "C12": dict(
+        prop_file="Properties/C12.v",
+        check_module="C12Check",
+        theorems={t: [] for t in [
+            "C12_every_history", "C12_get", "C12_insert", "C12_insert_other_keys", "C12_remove",
+            "C12_remove_other_keys", "C12_get_mut", "C12_entry", "C12_adjust_capacity", "C12_iter_len",
+            "C12_alloc_failure_unchanged", "C12_load_leaves_free_slot"]},
+        n_quick=300, n_thorough=4000,
+        gates=["hm.grew>2", "hm.removed_present", "hm.alloc_failed", "hm.mode=hint", "hm.mode=hash",
+               "hm.zero_hash_key_in_universe", "hm.get_mut_written"],
+        rule="random histories (20-300 ops) over CaoHashMap<drop-logging key, drop-logging value, fault-injecting "
+             "allocator>: insert / remove / get / contains / get_mut-write / entry(+or_insert_with) / reserve / clear / "
+             "clone / len / capacity / iter, initial capacity 0..19, small key universes (collisions, replacement), "
+             "keys whose FNV hash is 0, a second mode driving the *_with_hint API with 1-4 distinct hashes "
+             "(dense collisions, wrap-around), 1 in 8 allocating operations fails; after every operation result and "
+             "drop log are compared with the Coq model and with a reference map + drop accounting; non-trivial = "
+             ">= 4 operation kinds and at least one growth; distinct = distinct case term",
+        trusted_base=COMMON_TB + [
+            "modelled, not verified: collections/hash_map.rs (find_ind, insert_with_hint, grow/adjust_capacity, "
+            "remove_with_hint, get/contains/get_mut, entry/or_insert_with, reserve, clear/Drop, clone, iter, hash()) "
+            "and the f32 load test as integer round-to-nearest-even (exact for capacity < 2^24)",
+            "tools/gen_consts.py regenerates MAX_LOAD, the growth rule and the FNV / fibonacci constants from /repo; "
+            "the side conditions (MAX_LOAD < 1 by more than an ulp, growth strictly grows) are re-proved against them"],
+        assumptions=[
+            "K's Eq is Leibniz equality in the theorems (the correspondence instance uses keys with an instance id "
+            "that Eq ignores, only to identify objects in the drop log)",
+            "usize is 64 bits; capacities stay below 2^24 (above, `usize as f32` is inexact and the integer model of "
+            "the load test is no longer the f32 computation)",
+            "exactly-once dropping is checked by the reference-map oracle on the implementation's drop log and "
+            "stated per operation in the theorems (drop lists); the global multiset conservation theorem is not proved",
+        ],
+    ),
+    "C19": dict(
+        prop_file="Properties/C19.v",
+        check_module="C19Check",
+        theorems=dict(
+            [(t, []) for t in (
+                "C19_eq_refl", "C19_eq_self", "C19_eq_sym", "C19_eq_trans", "C19_eq_hash_bytes", "C19_eq_hash",
+                "C19_hasher_writes_concatenate", "C19_cmp_eq_coherent", "C19_cmp_swap", "C19_lt_asym",
+                "C19_cmp_int_int", "C19_cmp_real_real", "C19_cmp_nil_as_zero", "C19_cmp_obj_as_len",
+                "C19_cmp_obj_obj", "C19_cmp_str_by_len", "C19_signed_zero_hash_refuted", "C19_nan_not_reflexive",
+                "C19_nan_key_eq_hash_refuted", "C19_eq_trans_nan_refuted", "C19_fn_not_reflexive_legacy",
+                "C19_fn_key_eq_hash_legacy_refuted", "C19_eq_trans_legacy_refuted", "C19_fn_key_repaired",
+                "C19_coherentb_correct")] +
+            # statements about real numbers (Flocq B2R / Rcompare): the axioms of Coq's Reals library.
+            [(t, REALS_AXIOMS) for t in (
+                "C19_cmp_real_real_numeric", "C19_eq_real_real_numeric", "C19_cmp_mixed_partial",
+                "C19_cmp_mixed_refuted", "C19_oracle_Z_cmp_sf_correct")]),
+        n_quick=1500, n_thorough=12000,
+        gates=["pair", "triple", "eq.true.tables_built_differently", "table_table.permuted", "table.depth>=3",
+               "mixed.int_real", "mixed.int_beyond_2^53", "zero_vs_negzero", "has_nan", "has_nan_key",
+               "has_function", "has_function_key", "eq.true.with_function_key", "fn_fn.equal",
+               "closure.same_object", "closure.other_object_same_function", "hash0_remapped", "str_str.same_len_differ", "nil_vs_number",
+               "object_vs_number", "triple.eq_eq", "cmp.none", "cmp.eq_but_not_equal"],
+        rule="pairs (3/4) and triples (1/4) of values built through the host API of a fresh Vm (init_string, "
+             "init_table + insert bottom-up, nested up to 3 deep, init_function / init_native_function / "
+             "init_closure; the same closure description within a case is the same object, closure objects are numbered in first-seen order in the terms), drawn from pools biased to boundaries (0, +-1, 2^53+-1, 2^53..2^62 +-3, i64 min/max, "
+             "the i64 keys whose FNV hash is 0, +-0.0, NaNs, +-inf, subnormals, neighbours by one ulp, strings of "
+             "equal length, multi-byte strings) and from variants of the first value (same content in other "
+             "objects, other insertion order, one key/value changed, numeric twin under the coercions, other "
+             "zero); every value is read back from the real objects into a Coq term; observed: ==, both "
+             "directions, v == v, hash (CaoHashMap::insert's return value), partial_cmp both directions, <, <=, "
+             "as_bool, i64::try_from, f64::try_from; compared with the model and with the laws stated on the "
+             "observations; non-trivial = some == is true or some partial_cmp is Some or a table is involved; "
+             "distinct = distinct case term",
+        trusted_base=COMMON_TB + [
+            "Flocq 4.1.0 (binary64, B2SF, Bcompare, binary_round, b64_of_bits) and Coq's Floats.SpecFloat (SFcompare, SFeqb)",
+            "axioms of Coq's Reals library, only under the five theorems that mention real numbers: "
+            "ClassicalDedekindReals.sig_not_dec, ClassicalDedekindReals.sig_forall_dec, "
+            "FunctionalExtensionality.functional_extensionality_dep, Classical_Prop.classic",
+            "modelled, not verified: value.rs (PartialEq, Hash, PartialOrd, try_cast_match, as_bool, TryFrom<Value> "
+            "for i64/f64), cao_lang_object.rs (Hash, PartialEq, PartialOrd, len, is_empty), cao_lang_table.rs "
+            "(len, iter), CaoHasher and hash() of hash_map.rs, std's Hash for u8/i64/u64/u32/str",
+            "rustc's f64 ==, partial_cmp and `as` casts are IEEE 754 / saturating as documented",
+        ],
+        assumptions=[
+            "values are acyclic and built bottom-up: a table is not changed after it became a key of another "
+            "table (a self-referencing table overflows the native stack: A-37, outside this property)",
+            "native stack depth for deeply nested values is not modelled",
+            "upvalue objects are not values a script can compare and are left out",
+            "a closure id in a case names one object (checked per case: code 3 otherwise); eq -> same hash is proved under that coherence",
+            "the Equals/Less/LessOrEq cards are observed as the closures they run (a == b, a < b, a <= b), not "
+            "through compiled scripts",
+        ],
+    ),
+
+    "C13": dict(
+        prop_file="Properties/C13.v",
+        check_module="C13Check",
+        theorems={t: [] for t in [
+            "C13_every_history", "C13_get", "C13_insert", "C13_entry", "C13_remove",
+            "C13_other_handles_after_remove", "C13_iter_len", "C13_mask_is_mod"]},
+        n_quick=300, n_thorough=4000,
+        gates=["ht.grew>1", "ht.removed_present", "ht.alloc_failed", "ht.entry_new>16", "ht.index_absent",
+               "ht.cap0_not_pow2", "ht.keys=colliding", "ht.keys=small", "ht.keys=random"],
+        rule="random histories (20-300 ops) over HandleTable<drop-logging value, fault-injecting allocator>: insert "
+             "(incl. the invalid handle 0) / entry(+or_insert_with) / entry dropped / remove / get / contains / "
+             "get_mut-write / index / reserve / clear / clone / len / capacity / iter; requested initial capacity "
+             "0..40 incl. non powers of two; handle universes: sets sharing one home bucket under every mask "
+             "(computed with the inverse of the fibonacci multiplier), small integers, random 32-bit; 1 in 8 "
+             "allocating operations fails (first or second allocation); result and drop log after every operation "
+             "compared with the Coq model and with a reference map + drop accounting; non-trivial = >= 4 operation "
+             "kinds and at least one growth; distinct = distinct case term",
+        trusted_base=COMMON_TB + [
+            "modelled, not verified: collections/handle_table.rs (with_capacity, pad_pot, find_ind, insert/_insert, "
+            "grow/adjust_capacity, reserve with its f32 factor, entry/or_insert_with, remove, get/get_mut/contains, "
+            "clear/Drop, clone, iter); Index/IndexMut are exercised through get + the same assertion because they are "
+            "only implemented for the default allocator",
+            "the masked probe `& (capacity-1)` is modelled as `mod capacity`; C13_mask_is_mod + the power-of-two "
+            "capacity invariant in C13_every_history justify it; the capacity itself is compared on every run",
+            "tools/gen_consts.py regenerates MAX_LOAD, 1.0+MAX_LOAD, growth rule, minimum capacity, fibonacci "
+            "multiplier from /repo; the side conditions are re-proved against them"],
+        assumptions=[
+            "handles passed to entry() are non-zero (the property's domain); insert(0) is modelled (InvalidHandle)",
+            "capacities stay below 2^24 (f32 exactness of the load test / reserve factor)",
+            "each value dropped exactly once: checked by the oracle on the implementation's drop log and visible "
+            "per operation in the theorems' drop lists; no global multiset theorem",
+        ],
+    ),
+
+    "C07": dict(
+        prop_file="Properties/C07.v",
+        check_module="C07Check",
+        theorems={t: [] for t in ["C07_table_refines", "C07_append_key_least", "C07_set_then_get",
+                                  "C07_key_equality_is_value_equality"]},
+        n_quick=150, n_thorough=2500,
+        gates=["tb.pop_then_append", "tb.more_than_8_entries", "tb.string_keys", "tb.removed_present"],
+        rule="random histories (15-250 ops) on a CaoLangTable obtained from a Vm: insert / remove / append / pop / "
+             "get / nth_key / len / iter / keys with nil, integer, finite non-zero real and string keys (every use of "
+             "a string key is a fresh string object, so equality must be by content), key universes of 3-14 keys so "
+             "that overwrite / remove / pop-then-append / growth past 8 slots are frequent; results compared with "
+             "the Coq model and with the insertion-ordered association list; non-trivial = >= 5 operation kinds; "
+             "distinct = distinct case term",
+        trusted_base=COMMON_TB + [
+            "modelled, not verified: vm/runtime/cao_lang_table.rs (insert, remove, append, pop, nth_key, iter, keys, "
+            "len, get); the hash part is the abstract map of Table.v, licensed by the C12 refinement theorems and "
+            "by C19 (equal keys hash equally)"],
+        assumptions=[
+            "keys are nil, integers, strings, finite non-zero reals (the property's key domain); NaN and signed "
+            "zero keys are outside",
+            "the table instructions of the VM (Get/SetProperty, AppendTable, PopTable, NthRow, Len, ForEach) and "
+            "sharing of one table through several variables are exercised by the VM-level checks, not by this "
+            "host-API stream",
+            "i64 overflow of the append index (2^63 entries) is not modelled",
+        ],
+    ),
+
+    "C05": dict(
+        prop_file="Properties/C05.v",
+        check_module="C05Check",
+        theorems={t: [] for t in ["C05_ledger_invariant", "C05_oom_only_when_full", "C05_bounded_live_never_oom",
+                                  "C05_refused_not_charged", "C05_clear_is_fresh", "C05_gc_complete"]},
+        n_quick=60, n_thorough=600,
+        gates=["trace.alloc_refused", "trace.run_ended_OutOfMemory", "trace.collected>2",
+               "trace.collection_released_something", "gc_case.mid_run", "prog=string_churn", "prog=closures"],
+        rule="hand-written churn programs (garbage strings, garbage tables, growing table, closures with captured "
+             "locals, nested/shared tables with for-each, inline and dropped closures, stdlib callbacks that "
+             "allocate) scaled by n in {5,30,120,400} and string length in {4,32,200}, run 1-3 times with clear in "
+             "between under memory limits 900 B .. 400 KiB; every alloc / dealloc / nested collection is recorded "
+             "through the verif-hooks event log with the counters after it and compared with the allocator model "
+             "and with a shadow ledger of outstanding allocations; collections inside programs (gc_probe native) "
+             "are dumped as object graphs before/after and compared with the collector model and with a naive "
+             "reachability closure; non-trivial = the trace contains a collection / every collection case; "
+             "distinct = distinct case term",
+        trusted_base=COMMON_TB + [
+            "modelled, not verified: alloc/caolang_alloc.rs (alloc, dealloc, thresholds), RuntimeData::gc / clear "
+            "(vm/runtime.rs) as mark-from-roots-and-guards + sweep over an abstract object graph",
+            "the verif-hooks event log, heap dump and counters accessors in /repo (cfg feature, additive)"],
+        assumptions=[
+            "memory the crate takes outside its allocator (Vec of table keys, closure upvalue vectors, the object "
+            "list) is not 'accounted' by the property's own definition and is not checked",
+            "the object graph handed to the collector model is the one the hook dumps (table entries via iter, "
+            "closure upvalues, upvalue cells)",
+        ],
+    ),
+    "C02": dict(
+        prop_file="Properties/C02.v",
+        check_module="C02Check",
+        theorems={t: [] for t in ["C02_gc_preserves_reachable", "C02_mark_sound", "C02_mark_terminates"]},
+        n_quick=260, n_thorough=3000,
+        gates=["sched=every", "sched=single", "sched=subset", "gc_case", "prog=closures", "prog=stdlib_object_keys",
+               "prog=inline_closure"],
+        rule="for each program of the library (see C05, plus key functions returning fresh objects): a baseline run, "
+             "then runs with a collection forced at every allocation, at each single allocation index (quick: all "
+             "when <= 16 allocations, else 16 sampled; thorough: all) and at random subsets; freed objects are "
+             "quarantined and poisoned (verif-hooks), the heap is audited after every collection and at the end "
+             "(every object reachable from value stack, globals, call-frame closures, open-upvalue list and "
+             "guarded objects must be live), outcome and final globals (deep) must equal the baseline; collections "
+             "are also dumped as object graphs and compared with the collector model; non-trivial = the program "
+             "allocates; distinct = distinct case term",
+        trusted_base=COMMON_TB + [
+            "modelled, not verified: RuntimeData::gc as mark + sweep over an abstract object graph (Gc.v)",
+            "the verif-hooks in /repo: forced collections, quarantine + poisoning of freed objects, heap audit, "
+            "heap dump (cfg feature, additive); the audit and the outcome comparison are computed natively by the "
+            "harness and reported through the checker as schedule cases"],
+        assumptions=[
+            "that every temporary an instruction or native function holds is rooted at every allocation point is "
+            "checked by the schedules on the program library, not proved (no VM-level theorem yet)",
+            "the consequences of a use after free in the real address space are not modelled; the audit stops at "
+            "the first dangling reference, poisoning makes stale uses change the outcome",
+        ],
+    ),
+
+    "C11": dict(
+        prop_file="Properties/C11.v",
+        check_module="C11Check",
+        theorems={t: [] for t in ["C11_hash_map_roundtrip", "C11_handle_table_roundtrip"]},
+        n_quick=160, n_thorough=1500,
+        gates=["hm.Json", "hm.Cbor", "hm.Bincode", "ht.Json", "ht.Cbor", "ht.Bincode", "rt.module.Json",
+               "rt.module.Yaml", "rt.program.Json", "rt.program.Cbor", "rt.program.Bincode", "rt.value.Json",
+               "rt.value.Cbor", "rt.value.Bincode"],
+        rule="(a) CaoHashMap<i64,i64> and HandleTable<i64> with 0..130 entries (sizes around powers of two and the "
+             "load thresholds, some after removals) through JSON / CBOR / bincode: the entries in serialization "
+             "order, the size hint the format reports, and the decoded map's iteration order and capacity are "
+             "compared with the Coq model of the deserializer, and decoded = original as maps; (b) every program "
+             "of the library: source module through JSON and YAML then compiled = compiled original (bytecode, "
+             "data, sorted labels / variables / trace); compiled program through JSON / CBOR / bincode: fields "
+             "equal and same outcome and globals when run; (c) random values (nil, boundary ints, reals incl. "
+             "-0.0 / subnormal / max, unicode and escaped strings, nested ordered tables) VM -> owned -> format -> "
+             "owned -> second VM -> owned: deep equal with table order; non-trivial = map cases with > 1 entry, all "
+             "round-trip cases; distinct = distinct case term",
+        trusted_base=COMMON_TB + [
+            "serde derive output and the format crates (serde_json, serde_yaml, ciborium, bincode) are treated as "
+            "an identity on the serde data model: exercised by the round-trip stream, not modelled",
+            "modelled, not verified: collections/hash_map/serde_impl.rs and collections/handle_table/serde_impl.rs "
+            "(serialize in slot order; deserialize = with_capacity(power of two from the size hint or 128) + insert)"],
+        assumptions=[
+            "round trips (b) and (c) are judged natively by the harness (field-wise comparison, run outcome) and "
+            "passed through the checker as verdict cases; there is no theorem about program equivalence or "
+            "OwnedValue conversion yet",
+            "the program stream is the hand-written library until the random module generator is merged",
         ],
     ),
     "VM": dict(
